@@ -315,3 +315,104 @@ func (s *State) callHostPure(name string, fn interface{}, a []Value) Value {
 }
 
 var _ = fmt.Sprint
+
+// ---- sync/atomic: operations are synchronised; the engine runs one call at a
+// time, so they reduce to plain loads and stores that are exempt from the
+// unsynchronised-write check ----
+
+func (s *State) atomicAccess(f func()) {
+	saved := s.AccessLog
+	s.AccessLog = nil
+	defer func() { s.AccessLog = saved }()
+	f()
+}
+
+func init() {
+	field0 := func(p Ptr) Ptr { return Ptr{Obj: p.Obj, Path: pathAppend(p.Path, 0)} }
+	stubs["(*sync/atomic.Value).Load"] = func(s *State, a []Value) Value {
+		var v Value
+		s.atomicAccess(func() { v = s.load(field0(a[0].(Ptr))) })
+		return v
+	}
+	stubs["(*sync/atomic.Value).Store"] = func(s *State, a []Value) Value {
+		if iv, ok := a[1].(Iface); ok && iv.T == nil {
+			s.goPanic(Iface{T: types.Typ[types.String], V: "sync/atomic: store of nil value into Value"})
+		}
+		s.atomicAccess(func() { s.store(field0(a[0].(Ptr)), a[1]) })
+		return nil
+	}
+	for _, w := range []string{"Int32", "Int64", "Uint32", "Uint64"} {
+		w := w
+		stubs["sync/atomic.Load"+w] = func(s *State, a []Value) Value {
+			var v Value
+			s.atomicAccess(func() { v = s.load(a[0].(Ptr)) })
+			return v
+		}
+		stubs["sync/atomic.Store"+w] = func(s *State, a []Value) Value {
+			s.atomicAccess(func() { s.store(a[0].(Ptr), a[1]) })
+			return nil
+		}
+		stubs["sync/atomic.Add"+w] = func(s *State, a []Value) Value {
+			var out Value
+			s.atomicAccess(func() {
+				cur := s.load(a[0].(Ptr))
+				switch c := cur.(type) {
+				case int64:
+					out = c + a[1].(int64)
+				case uint64:
+					out = c + a[1].(uint64)
+				default:
+					s.abort("atomic add on %T", cur)
+				}
+				s.store(a[0].(Ptr), out)
+			})
+			return out
+		}
+		stubs["sync/atomic.CompareAndSwap"+w] = func(s *State, a []Value) Value {
+			ok := false
+			s.atomicAccess(func() {
+				if s.load(a[0].(Ptr)) == a[1] {
+					s.store(a[0].(Ptr), a[2])
+					ok = true
+				}
+			})
+			return ok
+		}
+		// methods of the typed atomics (struct with the value in its last field)
+		for _, m := range []string{"Load", "Store", "Add"} {
+			m := m
+			stubs["(*sync/atomic."+w+")."+m] = func(s *State, a []Value) Value {
+				p := a[0].(Ptr)
+				o := s.heap.get(p.Obj)
+				st, _ := s.navigate(o.V, p.Path).(*Struct)
+				if st == nil {
+					s.abort("atomic.%s receiver", w)
+				}
+				fp := Ptr{Obj: p.Obj, Path: pathAppend(p.Path, len(st.F)-1)}
+				switch m {
+				case "Load":
+					return stubs["sync/atomic.Load"+w](s, []Value{fp})
+				case "Store":
+					return stubs["sync/atomic.Store"+w](s, []Value{fp, a[1]})
+				}
+				return stubs["sync/atomic.Add"+w](s, []Value{fp, a[1]})
+			}
+		}
+	}
+	stubs["(*sync.RWMutex).Lock"] = stubMutexLock
+	stubs["(*sync.RWMutex).Unlock"] = stubMutexUnlock
+	stubs["(*sync.RWMutex).RLock"] = stubMutexLock
+	stubs["(*sync.RWMutex).RUnlock"] = stubMutexUnlock
+	stubs["(*sync.Once).Do"] = func(s *State, a []Value) Value {
+		p := a[0].(Ptr)
+		key := fmt.Sprintf("once:%d:%s", p.Obj, p.Path)
+		if _, done := s.holes[key]; done {
+			return nil
+		}
+		s.holes[key] = true
+		if fv, ok := a[1].(*FuncV); ok && fv != nil {
+			s.callNested(fv, nil)
+		}
+		return nil
+	}
+}
